@@ -121,3 +121,12 @@ Theorem C08_no_drift_before_min : forall (c : bocd_cfg RealA) (vs : list R), cfg
   (Z.of_nat (length vs) < bo_min c)%Z -> bdrift (brun c vs) = false.
 Proof. exact bocd_no_drift_before_min. Qed.
 Print Assumptions C08_no_drift_before_min.
+
+(** 7. An exact identity used by the long-run part of the check: with a constant hazard H the
+    posterior mass of "a new run starts now" is exactly H after every update (J_t(0) = H * evidence_t),
+    so exp(log_r[t][0]) = hazard for every t >= 1, whatever the data. *)
+From FV Require Import BOCDExtra.
+Theorem C08_changepoint_mass_is_hazard : forall (c : bocd_cfg RealA) (vs : list R) (v : R), cfg_ok c ->
+  hd 0 (map exp (brow (brun c (vs ++ [v])))) = bo_hazard c.
+Proof. exact bocd_row_head. Qed.
+Print Assumptions C08_changepoint_mass_is_hazard.
